@@ -73,6 +73,16 @@ def gen_calendars(rnd, tier):
     for i, fc in enumerate(fcs if tier == 'thorough' else rnd.sample(fcs, 2)):
         for eol in (b'\n', b'\r\n'):
             cals.append(('gen:foreign%d' % i + ('crlf' if eol == b'\r\n' else 'lf'), eol.join(fc) + eol))
+    # control characters and bytes above 127 inside values (the reader keeps marks of its own in its line buffer: no byte of the input
+    # may be taken for one), short lines before long ones so that a cut in a long line falls where a short one had such a byte
+    for i, ctl in enumerate([b'\x01', b'\x02', b'\x7f', b'\xc3\xa4', b'\x01\x01']):
+        L = [b'BEGIN:VCALENDAR', b'VERSION:2.0', b'BEGIN:VEVENT', b'UID:ctl-%d' % i]
+        for k in (3, 9, 14, 22):
+            L.append(b'X-N%d:' % k + b'abcdefghijklmnopqrstuvwxyz'[:max(0, k - 5)] + ctl + b'tail')
+        L += [b'SUMMARY:echo first second third fourth fifth sixth seventh', b'DESCRIPTION:' + b'some words ' * 5 + ctl + b' and more', b'DTSTART:20300101T000000Z', b'RRULE:FREQ=DAILY;COUNT=3', b'LOCATION:/tmp/somewhere/else',
+              b'END:VEVENT', b'BEGIN:VEVENT', b'UID:ctl-b%d' % i, b'SUMMARY:true', b'DTSTART;VALUE=DATE:20300201', b'END:VEVENT', b'END:VCALENDAR']
+        if tier == 'thorough' or i in (0, 3) or rnd.random() < 0.4:
+            cals.append(('gen:ctl%d' % i, b'\n'.join(L) + b'\n'))
     # many ATTENDEE lines (they go into a string pool that grows by doubling): lengths drawn at random and lengths made to fill the
     # pool exactly (each address plus its terminator; sums of 16, 32, 64, ... ) with more lines following
     def attcal(lens):
